@@ -452,7 +452,7 @@ Proof.
     assert (Ia : Inv_place a) by (eapply move_place; eauto).
     repeat dmatch H; try (inv H; exact Ia).
     unfold drop_off_trip in H. repeat dmatch H. inv H. eapply Inv_place_ext; [| | | |exact Ia]; try reflexivity. apply rframe_same. reflexivity.
-  - eapply charge_place; eauto.
+  - unfold charge_unless_full in H. repeat dmatch H; try (inv H; exact I); eapply charge_place; eauto.
   - rewrite Fv in H. repeat dmatch H. destruct (mech_idle_same m v (dt s)) as (Es & Em & Ep & Ei). cbv zeta in Es, Em, Ep, Ei.
     lazymatch goal with X : modify_vehicle _ _ ?w = Ok _ |- _ => apply (modv_place0 s v w s' I K); auto end.
     + rewrite Ei, Hid. exact Fv.
